@@ -144,6 +144,13 @@ def fixed_corpus():
     add(D([A2, B2, C2], repeat(cross('ABC', 'A', [['Pin', 2, 'C', 'c0']]), [['MinimumTrials', 4]])))
     # Nest whose OUTER crossing contains a within-trial derived factor with an uncrossed outer source
     add(D([A2, B2, C2, CONG], nest(cross('ABG', 'G'), cross('C', 'C'))))
+    # Exclude on a crossed within-trial derived level, with a crossed transition factor (the preamble trial must not
+    # carry the excluded level either)
+    add(D([A2, B2, CONG, TRA], cross('ABGR', 'GR', [['Exclude', 'G', 'g0']], rcc=False)))
+    add(D([A2, B2, CONG, TRB], cross('ABGS', 'GS', [['Exclude', 'G', 'g1']], rcc=False)))
+    # MinimumTrials given to the Nest itself, not a multiple of the inner block's length (rounded up to whole groups)
+    add(D([A2, B2], nest(cross('A', 'A'), cross('B', 'B'), [['MinimumTrials', 5]])))
+    add(D([A2, B3], nest(cross('A', 'A'), cross('B', 'B'), [['MinimumTrials', 7]])))
     # a two-trial preamble over a 3-level factor (3**2 preambles, not 3*2)
     add(D([A3, window('W', 'A', 3)], cross('AW', 'W')))
     # a window wider than the whole sequence (two trials), starting early: shifted source indices run past the grid
